@@ -783,6 +783,49 @@ func (c *ctx) marshalAliasEvents() {
 	}
 }
 
+// inspectBuilt: frame values BUILT by a caller - including ones a decoder would never produce (a CFList whose type byte and
+// payload kind disagree, a join-accept with reserved values, empty non-nil slices) - go through every operation that only
+// inspects a frame; the value is projected before and after
+func (c *ctx) inspectBuiltEvents() {
+	var key lorawan.AES128Key
+	copy(key[:], c.bytesN(16))
+	var eui lorawan.EUI64
+	for i := 0; i < 14; i++ {
+		var v M
+		if i%2 == 0 {
+			v = c.genJoinFrame(i%4 == 0)
+		} else {
+			v = c.genDataFrame(false)
+		}
+		phy := valToPhy(v, false)
+		if i >= 8 { // join-accepts with both payload kinds under every type byte, deterministically
+			ja := &lorawan.JoinAcceptPayload{JoinNonce: lorawan.JoinNonce(c.rnd.Intn(1 << 24)), RXDelay: uint8(c.rnd.Intn(16)), CFList: &lorawan.CFList{CFListType: lorawan.CFListType([]int{0, 1, 2}[i%3])}}
+			if i < 11 {
+				ja.CFList.Payload = &lorawan.CFListChannelMaskPayload{ChannelMasks: []lorawan.ChMask{{true, false, true}, {}, {false, true}}}
+			} else {
+				ja.CFList.Payload = &lorawan.CFListChannelPayload{Channels: [5]uint32{868100000, 0, 868500000}}
+			}
+			phy = &lorawan.PHYPayload{MHDR: lorawan.MHDR{MType: lorawan.JoinAccept}, MACPayload: ja}
+		}
+		if ja, ok := phy.MACPayload.(*lorawan.JoinAcceptPayload); ok && i < 8 && ja.CFList != nil && c.rnd.Intn(2) == 0 {
+			ja.CFList.CFListType = lorawan.CFListType(c.pick(0, 1, 2, 255)) // whatever the payload kind is
+		}
+		pre := phyToVal(phy)
+		res, _ := observeFast(func() error {
+			phy.MarshalBinary()
+			phy.MarshalText()
+			phy.MarshalJSON()
+			phy.ValidateUplinkJoinMIC(key)
+			phy.ValidateDownlinkJoinMIC(lorawan.JoinRequestType, eui, 1, key)
+			phy.ValidateUplinkDataMIC(lorawan.LoRaWAN1_1, 0, 0, 0, key, key)
+			phy.ValidateDownlinkDataMIC(lorawan.LoRaWAN1_0, 0, key)
+			phy.ValidateUplinkDataMICF(key)
+			return nil
+		})
+		c.emit(M{"ev": "inspectbuilt", "err": res, "pre": pre, "post": phyToVal(phy)})
+	}
+}
+
 // failedDecode: a decode step that FAILS (truncated command in FOpts / in a port-0 payload) must leave the frame as it was:
 // it still re-encodes to the bytes that were received
 func (c *ctx) failedDecodeEvents() {
@@ -895,6 +938,7 @@ func drvOwn(c *ctx) error {
 		}
 		c.methodAliasEvents()
 		c.marshalAliasEvents()
+		c.inspectBuiltEvents()
 		c.failedDecodeEvents()
 		c.joinAcceptAliasEvents()
 		c.twoDecodeEvents() // last: it registers a proprietary MAC command in this process
